@@ -12,6 +12,9 @@ EXPLANATION = (
     "rewritten call site / f.next key construction is C08/C09 (R mode)."
 )
 ASSUMPTIONS = [
+    'MultiTypeMap.resolve (mode U): every registered method is a function with its own code object (adapt_function / rename_code give each adapted method a fresh one)',
+    'MultiTypeMap.resolve (mode U): mro returns non-empty groups and puts each method in exactly one group (mro.positions / mro._pull)',
+    
     'MultiTypeMap.mro (mode U): each handler occurs at most once in a per-entry table (register stores it under one type per entry)',
     'MultiTypeMap.mro (mode U): signatures have vararg=False (Signature.extract rejects *args; register creates the -1 table only for vararg signatures)',
     'MultiTypeMap.mro (mode U): the key is non-empty (__missing__ answers () before calling resolve)',
@@ -23,7 +26,7 @@ BOUNDS = {"resolve": "<=3 ranks, <=2 methods per rank"}
 def tasks(tier):
     from contracts import recode_c
 
-    return [dict(name="recode.tail", build=recode_c.t_recode_tail, mode="U")] + _tm.mro_unbounded_tasks()[:2] + _tm.mtm_missing_tasks(("plain", "coded", "coded_nullary")) + _tm.resolve_tasks(tier) + [t for t in _tm.e2e_tasks(["complete"], "quick") if t["name"].endswith((",p]", "N=2,p/p]", "N=2,p/k]"))]
+    return [dict(name="recode.tail", build=recode_c.t_recode_tail, mode="U")] + _tm.mro_unbounded_tasks()[:2] + _tm.resolve_unbounded_tasks() + _tm.mtm_missing_tasks(("plain", "coded", "coded_nullary")) + _tm.resolve_tasks(tier) + [t for t in _tm.e2e_tasks(["complete"], "quick") if t["name"].endswith((",p]", "N=2,p/p]", "N=2,p/k]"))]
 
 
 def conformance(tier):
